@@ -16,10 +16,10 @@ import (
 )
 
 // zzDecBound: magnitude bound of the focus decimal field (64-bit div/mod by 10 is the
-// expensive part of the solver queries): 10^4 quick, 10^6 thorough.
+// expensive part of the solver queries): 10^4 quick, 10^5 thorough (10^6: solver unknown).
 func zzDecBound() int64 {
 	if zzvf.Thorough() {
-		return 1000000
+		return 100000
 	}
 	return 10000
 }
